@@ -17,6 +17,7 @@ byte level is connected by the refinement `Arrange.loop_refines` (Lemmas/Arrange
                       presupposes the null symbol ("stays first"), so this is recorded, not demanded.
 -/
 import ElfioVerif.Lemmas.ArrangeBytes
+import ElfioVerif.Lemmas.RelocSwap
 namespace ElfioVerif
 open Gen Arrange
 
@@ -209,6 +210,184 @@ theorem arrange_empty {σ : Type} (cb : σ → BitVec 64 → BitVec 64 → M σ)
     hk.setInfo, hk.ret]
   rfl
 
+/-! ### relocation tables -/
+
+/-- the record type the accessor selects (`none`: neither SHT_REL nor SHT_RELA) -/
+def relKind (r : SecBuf) : Option RelSites :=
+  relDispatch rsw_get_is32 rsw_get_rel_a rsw_get_rela_a rsw_get_rel_b rsw_get_rela_b r
+
+/-- `get_entries_num()` -/
+def relCount (r : SecBuf) : Nat := (entriesNum r).toNat
+
+/-- what `get_entry(j, offset, symbol, type, addend)` reports (see `relEntryAt_getEntry`) -/
+def relEntryAt (e : Enc) (r : SecBuf) (j : Nat) : Option RelEntry :=
+  (relKind r).map fun k => decodeRec e k (relRec k r (r.data.getD []) j)
+
+/-- number of symbol indices an `r_info` field can hold: 24 bits in ELF32, 32 in ELF64 -/
+def symLimit (c : Cls) : Nat :=
+  match c with
+  | .c32 => 16777216
+  | .c64 => 4294967296
+
+/-- Explicit hypotheses on a relocation section used with a symbol table of `n` symbols. -/
+structure RelReady (n : Nat) (r : SecBuf) : Prop where
+  kind : r.stype = BitVec.ofNat 32 SHT_REL ∨ r.stype = BitVec.ofNat 32 SHT_RELA
+  data : r.data.isSome = true
+  stable : (!r.isLoaded && r.canLoad) = false
+  es : ∀ k, relKind r = some k → k.recSize ≤ r.entSize.toNat
+  fits : r.size.toNat ≤ (r.data.getD []).length
+  small : r.size.toNat / r.entSize.toNat < 4294967295
+  limit : n ≤ symLimit r.cls
+
+theorem relKind_cases (r : SecBuf)
+    (hkind : r.stype = BitVec.ofNat 32 SHT_REL ∨ r.stype = BitVec.ofNat 32 SHT_RELA) :
+    ∃ k, relKind r = some k ∧
+      relDispatch rsw_set_is32 rsw_set_rel_a rsw_set_rela_a rsw_set_rel_b rsw_set_rela_b r = some k ∧
+      RelSitesOK k (symLimit r.cls) := by
+  have a1 : rsw_get_is32 (clsByte .c32) = true := by decide
+  have a2 : rsw_get_is32 (clsByte .c64) = false := by decide
+  have a3 : rsw_set_is32 (clsByte .c32) = true := by decide
+  have a4 : rsw_set_is32 (clsByte .c64) = false := by decide
+  have b1 : rsw_get_rel_a (BitVec.ofNat 32 SHT_REL) = true := by decide
+  have b2 : rsw_get_rel_a (BitVec.ofNat 32 SHT_RELA) = false := by decide
+  have b3 : rsw_get_rela_a (BitVec.ofNat 32 SHT_RELA) = true := by decide
+  have b4 : rsw_get_rel_b (BitVec.ofNat 32 SHT_REL) = true := by decide
+  have b5 : rsw_get_rel_b (BitVec.ofNat 32 SHT_RELA) = false := by decide
+  have b6 : rsw_get_rela_b (BitVec.ofNat 32 SHT_RELA) = true := by decide
+  have c1 : rsw_set_rel_a (BitVec.ofNat 32 SHT_REL) = true := by decide
+  have c2 : rsw_set_rel_a (BitVec.ofNat 32 SHT_RELA) = false := by decide
+  have c3 : rsw_set_rela_a (BitVec.ofNat 32 SHT_RELA) = true := by decide
+  have c4 : rsw_set_rel_b (BitVec.ofNat 32 SHT_REL) = true := by decide
+  have c5 : rsw_set_rel_b (BitVec.ofNat 32 SHT_RELA) = false := by decide
+  have c6 : rsw_set_rela_b (BitVec.ofNat 32 SHT_RELA) = true := by decide
+  cases hc : r.cls <;> rcases hkind with hk | hk
+  · exact ⟨rel32, by simp [relKind, relDispatch, hc, hk, a1, b1],
+      by simp [relDispatch, hc, hk, a3, c1], rel32_ok⟩
+  · exact ⟨rela32, by simp [relKind, relDispatch, hc, hk, a1, b2, b3],
+      by simp [relDispatch, hc, hk, a3, c2, c3], rela32_ok⟩
+  · exact ⟨rel64, by simp [relKind, relDispatch, hc, hk, a2, b4],
+      by simp [relDispatch, hc, hk, a4, c4], rel64_ok⟩
+  · exact ⟨rela64, by simp [relKind, relDispatch, hc, hk, a2, b5, b6],
+      by simp [relDispatch, hc, hk, a4, c5, c6], rela64_ok⟩
+
+theorem RelReady.rel1 {n : Nat} {r : SecBuf} (e : Enc) (h : RelReady n r) :
+    ∃ k, relKind r = some k ∧ RelSitesOK k (symLimit r.cls) ∧
+      RelWF k r (r.data.getD []) (r.size.toNat / r.entSize.toNat) ∧
+      Rel1 e n r (decodeAll e k r (r.data.getD []) (r.size.toNat / r.entSize.toNat)) := by
+  obtain ⟨k, h1, h2, h3⟩ := relKind_cases r h.kind
+  have hd : r.data = some (r.data.getD []) := by
+    cases hs : r.data with
+    | none => have := h.data; simp [hs] at this
+    | some d => rfl
+  have hwf : RelWF k r (r.data.getD []) (r.size.toNat / r.entSize.toNat) :=
+    { getK := h1, setK := h2, data := hd, stable := h.stable, es := h.es k h1, fits := h.fits,
+      m_def := rfl, small := h.small }
+  exact ⟨k, h1, h3, hwf, k, _, _, _, h3, hwf, h.limit, rfl⟩
+
+/-- `relEntryAt` is what the model's `get_entry` returns -/
+theorem relEntryAt_getEntry {n : Nat} {r : SecBuf} (e : Enc) (h : RelReady n r) (j : Nat)
+    (hj : j < relCount r) :
+    ∃ v, relEntryAt e r j = some v ∧ getEntry e r (BitVec.ofNat 64 j) = .ok (r, some v) := by
+  obtain ⟨k, h1, h3, hwf, _⟩ := h.rel1 e
+  have hm : relCount r = r.size.toNat / r.entSize.toNat := entriesNum_toNat h3 hwf
+  have hjn : (BitVec.ofNat 64 j).toNat = j := by
+    simp only [BitVec.toNat_ofNat, Nat.reducePow]
+    have := h.small
+    exact Nat.mod_eq_of_lt (by omega)
+  have := getEntry_eq e h3 hwf (BitVec.ofNat 64 j) (by rw [hjn]; omega)
+  rw [hjn] at this
+  exact ⟨_, by simp [relEntryAt, h1], this⟩
+
+/-- the decoded entries of a table, by the record type its section type selects -/
+def decodeAllOf (e : Enc) (r : SecBuf) : List AEntry :=
+  match relKind r with
+  | some k => decodeAll e k r (r.data.getD []) (r.size.toNat / r.entSize.toNat)
+  | none => []
+
+theorem relAll_of_ready (e : Enc) (n : Nat) :
+    ∀ (rels : List SecBuf), (∀ r, r ∈ rels → RelReady n r) →
+      RelAll e n rels (rels.map (decodeAllOf e))
+  | [], _ => trivial
+  | r :: rs, h => by
+    obtain ⟨k, h1, _, _, h4⟩ := (h r (by simp)).rel1 e
+    refine ⟨?_, relAll_of_ready e n rs (fun r' hr' => h r' (by simp [hr']))⟩
+    simp only [decodeAllOf, h1]
+    exact h4
+
+theorem decodeAll_getElem? (e : Enc) (k : RelSites) (r : SecBuf) (d : Bytes) (m j : Nat) :
+    (decodeAll e k r d m)[j]? =
+      if j < m then some (AEntry.ofRel (decodeRec e k (relRec k r d j))) else none := by
+  unfold decodeAll
+  by_cases h : j < m
+  · simp [h]
+  · simp [h]
+
+/-- **arrange_relocs**: forward the swap callback to any number of REL/RELA tables (whose
+    `r_info` can hold the table's symbol indices): afterwards every table has the same number of
+    entries, every entry keeps offset, type and addend, and the symbol it refers to — looked up
+    in the arranged table — is, byte for byte, the record it referred to before. -/
+theorem arrange_relocs (e : Enc) (s : SecBuf) (hs : Ready s) (rels : List SecBuf)
+    (hr : ∀ r, r ∈ rels → RelReady (symCount s) r)
+    {s' : SecBuf} {rels' : List SecBuf} {ret : BitVec 64}
+    (h : arrange (relCallback e) s rels = .ok (s', rels', ret)) :
+    rels'.length = rels.length ∧
+    ∀ (t : Nat) r r', rels[t]? = some r → rels'[t]? = some r' →
+      relCount r' = relCount r ∧
+      ∀ j, j < relCount r → ∃ v v', relEntryAt e r j = some v ∧ relEntryAt e r' j = some v' ∧
+        v'.offset = v.offset ∧ v'.rtype = v.rtype ∧ v'.addend = v.addend ∧
+        (symTable s')[v'.symbol.toNat]? = (symTable s)[v.symbol.toNat]? := by
+  have hcb : CbRefines (symCount s) (relCallback e)
+      (fun st i j => aAction.act (Arr.transp i j) st) (RelAll e (symCount s)) :=
+    fun stb sta i j hR hij hj => relCallback_refines e _ stb sta i j hR hij hj
+  have hR0 := relAll_of_ready e (symCount s) rels hr
+  obtain ⟨d', stb', ret', l', sta', r0, h1, h2, h3, _, _, h6, _⟩ :=
+    arrange_refines (relCallback e) _ (RelAll e (symCount s)) s hs hcb rels _ hR0
+  rw [h1] at h
+  simp only [Except.ok.injEq, Prod.mk.injEq] at h
+  obtain ⟨rfl, rfl, rfl⟩ := h
+  obtain ⟨π, p1, p2⟩ := Arr.absLoop_tracks (isLocal s.cls) aAction _ _ _ _ _ _ _ h2
+  subst p1
+  rw [← h3] at p2
+  obtain ⟨g1, g2⟩ := RelAll.get h6
+  have hlen : stb'.length = rels.length := by rw [g1]; simp [aAction]
+  refine ⟨hlen, ?_⟩
+  intro t r r' hr1 hr2
+  obtain ⟨t', q1, q2⟩ := g2 t r' hr2
+  -- the abstract table of r' is the mapped abstract table of r
+  have hq1 : t' = (decodeAllOf e r).map (fun a => { a with sym := π a.sym }) := by
+    simp only [aAction, List.getElem?_map, hr1, Option.map_some, Option.some.injEq] at q1
+    exact q1.symm
+  -- both sides, concretely
+  have hrr : RelReady (symCount s) r := hr r (List.mem_of_getElem? hr1)
+  obtain ⟨k, k1, k3, kwf, _⟩ := hrr.rel1 e
+  have hm : relCount r = r.size.toNat / r.entSize.toNat := entriesNum_toNat k3 kwf
+  obtain ⟨k', lim', d1, m', j1, j2, _, j4⟩ := q2
+  have hm' : relCount r' = m' := entriesNum_toNat j1 j2
+  have hk' : relKind r' = some k' := j2.getK
+  have hd' : r'.data.getD [] = d1 := by rw [j2.data]; rfl
+  have hall : decodeAll e k' r' d1 m'
+      = (decodeAll e k r (r.data.getD []) (r.size.toNat / r.entSize.toNat)).map
+          (fun a => { a with sym := π a.sym }) := by
+    rw [← j4, hq1]; simp only [decodeAllOf, k1]
+  have hmm : m' = r.size.toNat / r.entSize.toNat := by
+    have := congrArg List.length hall
+    simpa [decodeAll] using this
+  refine ⟨by rw [hm', hm, hmm], ?_⟩
+  intro j hj
+  rw [hm] at hj
+  have hj2 := congrArg (fun l => l[j]?) hall
+  simp only [List.getElem?_map, decodeAll_getElem?, hj, hmm, if_true, Option.map_some,
+    Option.some.injEq] at hj2
+  refine ⟨decodeRec e k (relRec k r (r.data.getD []) j), decodeRec e k' (relRec k' r' d1 j),
+    by simp [relEntryAt, k1], by simp [relEntryAt, hk', hd'], ?_, ?_, ?_, ?_⟩
+  · exact congrArg AEntry.offset hj2
+  · exact congrArg AEntry.rtype hj2
+  · exact congrArg AEntry.addend hj2
+  · have hsym := congrArg AEntry.sym hj2
+    simp only [AEntry.ofRel] at hsym
+    rw [hsym]
+    exact p2 _
+
 /-! ### non-vacuity: a concrete ELF64 table (null, global, local) meets the hypotheses -/
 
 /-- three `Elf64_Sym` records: the null symbol, a global (`st_info = 0x12`), a local (`0x02`) -/
@@ -232,6 +411,31 @@ example : CbRefines (symCount exSec) noCallback (fun (_ : Unit) _ _ => ()) (fun 
 example : (arrange noCallback exSec ()).toOption.map (fun r => (symTable r.1, r.2.2.toNat, r.1.info.toNat))
     = some ([List.replicate 24 0, [5, 0, 0, 0, 0x02, 0, 1, 0] ++ List.replicate 16 9,
              [1, 0, 0, 0, 0x12, 0, 1, 0] ++ List.replicate 16 7], 2, 2) := by decide
+
+/-- an `Elf64_Rela` table with two entries referring to symbols 1 (the global) and 2 (the local) -/
+def exRel : SecBuf :=
+  { cls := .c64, stype := BitVec.ofNat 32 SHT_RELA, size := 48, dataSize := 48, streamSize := 48,
+    isLoaded := true, entSize := 24,
+    data := some ([16, 0, 0, 0, 0, 0, 0, 0,  2, 0, 0, 0, 1, 0, 0, 0] ++ List.replicate 8 255 ++
+                  [32, 0, 0, 0, 0, 0, 0, 0,  7, 0, 0, 0, 2, 0, 0, 0,  5, 0, 0, 0, 0, 0, 0, 0] ++ [0]) }
+
+example : RelReady (symCount exSec) exRel := by
+  have hk : relKind exRel = some rela64 := rfl
+  constructor
+  · right; decide
+  · decide
+  · decide
+  · intro k h; rw [hk] at h; cases h; decide
+  · decide
+  · decide
+  · decide
+/-- with the callback forwarded, the entries now name symbols 2 and 1: the same records -/
+example : (arrange (relCallback .lsb) exSec [exRel]).toOption.map
+      (fun r => r.2.1.map fun t => (List.range 2).map fun j =>
+        match relEntryAt .lsb t j with
+        | some v => [v.offset.toNat, v.symbol.toNat, v.rtype.toNat, v.addend.toNat]
+        | none => [])
+    = some [[[16, 2, 2, 18446744073709551615], [32, 1, 7, 5]]] := by decide
 
 end C10
 end ElfioVerif
